@@ -283,7 +283,8 @@ impl<'buf> ModuleReader<'buf> {
             .find(|h| h.p_type == elf::program_header::PT_DYNAMIC)
             .ok_or(Error::NoDynamicSection)?;
 
-        let dynamic_section = self.read_segment(dynamic_segment_header)?;
+        let link_base = Self::link_base(&program_headers);
+        let dynamic_section = self.read_segment(dynamic_segment_header, link_base)?;
 
         let mut soname_strtab_offset = None;
         let mut strtab_addr = None;
@@ -335,8 +336,11 @@ impl<'buf> ModuleReader<'buf> {
                 .ok_or(Error::NoDynStrSection)?,
             };
 
+        let link_base = self
+            .read_program_headers()
+            .map_or(0, |program_headers| Self::link_base(&program_headers));
         let dynamic_section = self.module_memory.read(
-            self.section_offset(dynamic_section_header),
+            self.section_offset(dynamic_section_header, link_base),
             dynamic_section_header.sh_size,
         )?;
 
@@ -346,7 +350,7 @@ impl<'buf> ModuleReader<'buf> {
                 let name_offset = dyn_.d_val;
                 if name_offset < dynstr_section_header.sh_size {
                     return self.read_name_from_strtab(
-                        self.section_offset(dynstr_section_header),
+                        self.section_offset(dynstr_section_header, link_base),
                         dynstr_section_header.sh_size,
                         name_offset,
                     );
@@ -425,7 +429,13 @@ impl<'buf> ModuleReader<'buf> {
     /// when the segment is mapped at its file offset).
     fn locate_address(&self, program_headers: &elf::ProgramHeaders, addr: u64) -> u64 {
         if self.module_memory.is_process_memory() {
-            return self.module_memory.absolute(addr);
+            let relative = self.module_memory.absolute(addr);
+            return if relative != addr {
+                relative
+            } else {
+                // Not relocated by the dynamic loader: still a link-time address.
+                Self::relative_to_link_base(addr, Self::link_base(program_headers))
+            };
         }
         program_headers
             .iter()
@@ -441,9 +451,32 @@ impl<'buf> ModuleReader<'buf> {
             .unwrap_or(addr)
     }
 
-    fn read_segment(&mut self, header: &elf::ProgramHeader) -> Result<Buf<'buf>, Error> {
+    /// The address at which the beginning of the image (file offset 0) is linked: `p_vaddr -
+    /// p_offset` of the first loadable segment. It is 0 for ordinary shared objects and
+    /// position-independent executables; when it is not, link-time addresses have to be taken
+    /// relative to it to find their contents in the memory that starts at the module's mapping.
+    fn link_base(program_headers: &elf::ProgramHeaders) -> u64 {
+        program_headers
+            .iter()
+            .find(|h| h.p_type == elf::program_header::PT_LOAD)
+            .map_or(0, |h| h.p_vaddr.wrapping_sub(h.p_offset))
+    }
+
+    #[inline]
+    fn relative_to_link_base(addr: u64, link_base: u64) -> u64 {
+        addr.checked_sub(link_base).unwrap_or(addr)
+    }
+
+    fn read_segment(
+        &mut self,
+        header: &elf::ProgramHeader,
+        link_base: u64,
+    ) -> Result<Buf<'buf>, Error> {
         let (offset, size) = if self.module_memory.is_process_memory() {
-            (header.p_vaddr, header.p_memsz)
+            (
+                Self::relative_to_link_base(header.p_vaddr, link_base),
+                header.p_memsz,
+            )
         } else {
             (header.p_offset, header.p_filesz)
         };
@@ -474,9 +507,9 @@ impl<'buf> ModuleReader<'buf> {
             .map_err(|_| Error::StrTabNoNulByte)
     }
 
-    fn section_offset(&self, header: &elf::SectionHeader) -> u64 {
+    fn section_offset(&self, header: &elf::SectionHeader, link_base: u64) -> u64 {
         if self.module_memory.is_process_memory() {
-            header.sh_addr
+            Self::relative_to_link_base(header.sh_addr, link_base)
         } else {
             header.sh_offset
         }
